@@ -252,3 +252,20 @@ def uninitialised(answer="zero"):
         yield
     finally:
         torch.empty, torch.empty_like = e, el
+
+
+def freeze_code():
+    """Import every module of the package under test in the parent before workers are forked: several are
+    imported lazily at first use, so a tree that changes while a run is in progress (another commit) would
+    otherwise give different code to different workers (seen: references and batches disagreeing by 0.31 eV/A
+    because the analytical-gradient module was re-read after a commit)."""
+    import importlib
+    import pkgutil
+
+    import seqm
+
+    for m in pkgutil.walk_packages(seqm.__path__, "seqm."):
+        try:
+            importlib.import_module(m.name)
+        except Exception:  # noqa: BLE001 - optional dependencies
+            pass
